@@ -782,4 +782,8 @@ B('IC-columns-zip-unguarded', ['C06', 'C07'], 'type_blocks.py', 'TypeBlocks.resi
 N('IC-guard-via-local', ['C06', 'C07'], 'type_blocks.py', 'TypeBlocks.resize_blocks',
   '                                if index_ic.has_common:\n                                    if b.ndim == 1:', '                                if index_ic.has_common is True or index_ic.has_common:\n                                    if b.ndim == 1:')
 
+# ---------------------------------------------------------------------------------- key-steered descent (C02, C05, C09)
+B('KD-position-check-removed', ['C05', 'C09', 'C02'], 'index_level.py', 'IndexLevelGO.append',
+  "                elif node.targets is not None and node.index._loc_to_iloc(k) != node.index.__len__() - 1:", "                elif False:", 'I.descent-follows-key', 'IndexLevelGO.append')
+
 VARIANTS = V
